@@ -61,10 +61,15 @@ L1ExtraSym      == Hdr(3) \o Syms \o <<FKend(0, FALSE), FSym(1, 1, "OK")>>
 L1BadEnd        == HdrU \o Syms \o <<FEopm(3, 1, FALSE)>>
 L1BadDist       == HdrU \o <<FSym(2, 1, "OK"), FSym(1, 2, "DATA_ERROR")>>
 L1BadProps      == <<ONeed(FByte(1, 1, FALSE, "FORMAT_ERROR"))>> \o Syms
+\* range decoder initialisation (rc_read_init): five bytes read one at a time, the first must be 0x00 and is
+\* rejected without being consumed
+RcInit(bad)     == FByte(3, bad, FALSE, "DATA_ERROR")
+L1RcGood        == HdrU \o <<RcInit(0)>> \o Syms \o <<FEopm(3, 1, TRUE)>>
+L1RcBad         == HdrU \o <<RcInit(1)>> \o Syms \o <<FEopm(3, 1, TRUE)>>
 NoEopm == [OptP EXCEPT !.allowEopm = FALSE]
 Lzma1Inputs ==
     {Whole(F, OptP) : F \in {L1UnknownEopm, L1KnownNoEopm, L1KnownEopm, L1KnownEopm1, L1EopmEarly, L1PastSize,
-                            L1ExtraSym, L1BadEnd, L1BadDist, L1BadProps}}
+                            L1ExtraSym, L1BadEnd, L1BadDist, L1BadProps, L1RcGood, L1RcBad}}
     \cup {Whole(L1KnownEopm, NoEopm), Whole(L1KnownNoEopm, NoEopm), Garbage(L1KnownEopm, OptP), Garbage(L1KnownNoEopm, OptP)}
     \cup Truncations(L1KnownEopm, OptP) \cup Truncations(L1UnknownEopm, OptP) \cup Truncations(L1KnownNoEopm, OptP)
 
